@@ -28,8 +28,31 @@ import sys
 
 sys.path.insert(0, os.path.dirname(os.path.abspath(__file__)))
 import common  # noqa: E402
-import translate  # noqa: E402
-from translate import TranslateError, lean_str, lean_bool, lean_list  # noqa: E402
+
+# translate.py is imported lazily: it may itself import this module to register the generator,
+# in either order.
+
+
+def _translate():
+    import translate
+    return translate
+
+
+def TranslateError(msg):
+    """An instance of translate.TranslateError (raise TranslateError("...") works as usual)."""
+    return _translate().TranslateError(msg)
+
+
+def lean_str(s):
+    return _translate().lean_str(s)
+
+
+def lean_bool(b):
+    return _translate().lean_bool(b)
+
+
+def lean_list(items):
+    return _translate().lean_list(items)
 
 PKG = os.path.join("metomi", "isodatetime")
 CAL_NAME = "CALENDAR"
@@ -752,7 +775,7 @@ def render(an):
     aidx = {a: i for i, a in enumerate(attrs)}
     names = [r["name"] for r in an["rows"]]
     fidx = {n: i for i, n in enumerate(names)}
-    out = [translate.HEADER.replace("harness/translate.py", "harness/gen_cache.py"),
+    out = [_translate().HEADER.replace("harness/translate.py", "harness/gen_cache.py"),
            "import IsoDT.Basic", "", "namespace IsoDT.Gen.Cache", ""]
     out.append("/-- One function of the table. Functions and `CALENDAR` attributes are referred to by")
     out.append("    their position in `fnNames` / `attrNames`. -/")
@@ -840,7 +863,7 @@ def gen_cache():
 def main(argv):
     try:
         text = gen_cache()
-    except TranslateError as exc:
+    except _translate().TranslateError as exc:
         print("TRANSLATE-FAIL Cache: %s" % exc)
         return 3
     if "--write" in argv:
